@@ -80,7 +80,7 @@ def _pool_labels(ktype: str, domain: str) -> list[str]:
     if ktype == "timedelta_i64":
         return ["0", "1", "-1", "2^53+1", "-(2^53+1)", "lo", "hi", "rand", "rand_big"]
     if ktype == "datetime_i64":
-        return ["0", "1", "999", "1000", "broker", "max", "rand", "rand_s"]
+        return ["0", "1", "999", "1000", "broker", "max", "rand", "rand_s", "dst_fold"]
     if ktype == "uuid":
         return ["rand", "one", "ff"]
     if ktype == "string":
@@ -122,6 +122,9 @@ def pool_value(rng: random.Random, ktype: str, label: str) -> object:
         return {
             "0": 0, "1": 1, "999": 999, "1000": 1000, "broker": 1503229838908, "max": DT_MAX,
             "rand": rng.randint(0, DT_MAX), "rand_s": 1000 * rng.randint(0, DT_MAX // 1000),
+            # within an hour of the end of daylight saving time 2021 in Europe (01:00 UTC) / the US (06:00 UTC): expressed in such a zone
+            # the wall-clock time is ambiguous (PEP 495 fold), which must not matter anywhere
+            "dst_fold": rng.choice((1635642000000, 1636264800000)) + rng.randint(-3599999, 3599999),
         }[label]
     if ktype == "uuid":
         if label == "rand":
